@@ -55,8 +55,11 @@ func (cl Serializer) DecodeDnsResponse(msg *dns.Msg) (Response, error) {
 // DecodeDnsResponse will take a DNS message and decode it into one of the DNS response object
 func (cl Serializer) DecodeDnsResponseWithParams(msg *dns.Msg, downstream enc.Encoder) (Response, error) {
 	data := util.UnwrapDnsResponse(msg, cl.Domain)
+	if len(data) == 0 {
+		return nil, errors.Errorf("Invalid response from server. No usable answer records.")
+	}
 	for _, c := range Commands {
-		if c.IsOfType(data) {
+		if c.IsOfType(data) && c.NewResponse != nil {
 			req := c.NewResponse()
 			err := req.Decode(downstream, data)
 			return req, err
@@ -150,8 +153,11 @@ func (cl Serializer) EncodeDnsRequestWithParams(req Request, qt dnsmessage.Type,
 
 // DecodeDnsRequest will take a DNS message and decode it into one of the DNS requests objects
 func (cl Serializer) DecodeDnsRequest(request []byte) (Request, error) {
+	if len(request) == 0 {
+		return nil, errors.Errorf("Invalid request. No data.")
+	}
 	for _, c := range Commands {
-		if c.IsOfType(request) {
+		if c.IsOfType(request) && c.NewRequest != nil {
 			req := c.NewRequest()
 			err := req.Decode(cl.Upstream.Encoder, request)
 			if err != nil {
